@@ -141,6 +141,8 @@ class EventHandler(abc.ABC):
 
         self.pending_tag = split_qname(qname)
         self.add_namespace(self.pending_tag[0])
+        # Reset early, QName attribute values are encoded before the tag is flushed
+        self.reset_default_namespace()
 
     def add_attribute(self, qname: str, value: Any, root: bool = False) -> None:
         """Add attribute notification receiver.
